@@ -195,7 +195,294 @@ theorem step_relays (st : St S) (s : S) (a : A) (hs : st.state = some s) :
   simp [run1, hs]
 end Gym
 
-theorem aggregate_only (aggR aggD : R → R) (t : TS O R X) :
+/-! ### Gym flags on real values (`R := Rat`, `isZero := (· == 0)`) -/
+namespace Gym
+
+/-- `term = ~discount.astype(bool)`, `trunc = timestep.last()` on rational rewards / discounts:
+terminated ↔ the native discount is 0; truncated ↔ the native step is LAST (whatever the discount) -/
+theorem step_relays_rat (E : Env S A O Rat X) (st : St S) (s : S) (a : A) (hs : st.state = some s) :
+    ∃ term trunc : Bool,
+      (run1 E (fun d => d == 0) st (.step a)).2 =
+        .stepped (E.step s a).2.obs (E.step s a).2.reward term trunc (E.step s a).2.extras ∧
+      (term = true ↔ (E.step s a).2.discount = 0) ∧
+      (trunc = true ↔ (E.step s a).2.stepType = .last) ∧
+      (run1 E (fun d => d == 0) st (.step a)).1.state = some (E.step s a).1 ∧
+      (run1 E (fun d => d == 0) st (.step a)).1.key = st.key := by
+  refine ⟨(E.step s a).2.discount == 0, (E.step s a).2.last, ?_, ?_, ?_, ?_, ?_⟩
+  · simp [run1, hs]
+  · simp
+  · simp [TS.last]
+  · simp [run1, hs]
+  · simp [run1, hs]
+
+/-- `step` before the first `reset`: `self._state` is `None`, the jitted step fails -/
+theorem step_before_reset (E : Env S A O R X) (isZero : R → Bool) (st : St S) (a : A) (hs : st.state = none) :
+    run1 E isZero st (.step a) = (st, .error) := by
+  simp [run1, hs]
+
+end Gym
+
+/-! ### MultiToSingleWrapper -/
+namespace MultiToSingle
+variable {R' : Type}
+
+theorem step_eq (E : Env S A O R X) (aggR aggD : R → R') (s : S) (a : A) :
+    step E aggR aggD s a = ((E.step s a).1, aggregate aggR aggD (E.step s a).2) := rfl
+
+theorem reset_eq (E : Env S A O R X) (aggR aggD : R → R') (k : Key) :
+    reset E aggR aggD k = ((E.reset k).1, aggregate aggR aggD (E.reset k).2) := rfl
+
+/-- the wrapped step: the native next state; reward and discount aggregated; everything else relayed -/
+theorem step_fields (E : Env S A O R X) (aggR aggD : R → R') (s : S) (a : A) :
+    (step E aggR aggD s a).1 = (E.step s a).1 ∧
+    (step E aggR aggD s a).2.reward = aggR (E.step s a).2.reward ∧
+    (step E aggR aggD s a).2.discount = aggD (E.step s a).2.discount ∧
+    (step E aggR aggD s a).2.stepType = (E.step s a).2.stepType ∧
+    (step E aggR aggD s a).2.obs = (E.step s a).2.obs ∧
+    (step E aggR aggD s a).2.extras = (E.step s a).2.extras ∧
+    (step E aggR aggD s a).2.nextObs = (E.step s a).2.nextObs := by
+  simp [step_eq, aggregate]
+
+theorem reset_fields (E : Env S A O R X) (aggR aggD : R → R') (k : Key) :
+    (reset E aggR aggD k).1 = (E.reset k).1 ∧
+    (reset E aggR aggD k).2.reward = aggR (E.reset k).2.reward ∧
+    (reset E aggR aggD k).2.discount = aggD (E.reset k).2.discount ∧
+    (reset E aggR aggD k).2.stepType = (E.reset k).2.stepType ∧
+    (reset E aggR aggD k).2.obs = (E.reset k).2.obs ∧
+    (reset E aggR aggD k).2.extras = (E.reset k).2.extras ∧
+    (reset E aggR aggD k).2.nextObs = (E.reset k).2.nextObs := by
+  simp [reset_eq, aggregate]
+
+/-- the wrapper keeps the states: a whole rollout of the wrapped environment is the native rollout with
+every timestep aggregated -/
+theorem rollout_eq (E : Env S A O R X) (aggR aggD : R → R') (s : S) (as : List A) :
+    rollout (env E aggR aggD) s as = (rollout E s as).map (fun p => (p.1, aggregate aggR aggD p.2)) := by
+  induction as generalizing s with
+  | nil => rfl
+  | cons a as ih =>
+    simp only [rollout, List.map_cons]
+    show step E aggR aggD s a :: rollout (env E aggR aggD) (step E aggR aggD s a).1 as = _
+    rw [step_eq, ih]
+
+private def mx (a b : Rat) : Rat := if a ≤ b then b else a
+
+private theorem foldl_mx_ge_init (l : List Rat) (r : Rat) : r ≤ l.foldl mx r := by
+  induction l generalizing r with
+  | nil => exact Rat.le_refl
+  | cons b l ih =>
+    simp only [List.foldl_cons]
+    refine Rat.le_trans ?_ (ih (mx r b))
+    unfold mx; split
+    · assumption
+    · exact Rat.le_refl
+
+private theorem foldl_mx_ge_mem (l : List Rat) (r : Rat) : ∀ d ∈ l, d ≤ l.foldl mx r := by
+  induction l generalizing r with
+  | nil => simp
+  | cons b l ih =>
+    intro d hd
+    simp only [List.foldl_cons]
+    rcases List.mem_cons.1 hd with rfl | hd
+    · refine Rat.le_trans ?_ (foldl_mx_ge_init l (mx r d))
+      unfold mx; split
+      · exact Rat.le_refl
+      · rename_i h; exact Rat.le_of_lt (Rat.not_le.1 h)
+    · exact ih _ d hd
+
+private theorem foldl_mx_mem (l : List Rat) (r : Rat) : l.foldl mx r = r ∨ l.foldl mx r ∈ l := by
+  induction l generalizing r with
+  | nil => simp
+  | cons b l ih =>
+    simp only [List.foldl_cons]
+    rcases ih (mx r b) with h | h
+    · rw [h]; unfold mx; split
+      · right; simp
+      · left; rfl
+    · right; simp [h]
+
+/-- `jnp.max` of a non-empty vector is one of its elements and bounds all of them -/
+theorem maxAgg_mem (ds : List Rat) (hne : ds ≠ []) : maxAgg ds ∈ ds := by
+  cases ds with
+  | nil => exact absurd rfl hne
+  | cons r rs =>
+    show rs.foldl mx r ∈ r :: rs
+    rcases foldl_mx_mem rs r with h | h
+    · rw [h]; simp
+    · simp [h]
+
+theorem maxAgg_ge (ds : List Rat) : ∀ d ∈ ds, d ≤ maxAgg ds := by
+  cases ds with
+  | nil => simp
+  | cons r rs =>
+    intro d hd
+    show d ≤ rs.foldl mx r
+    rcases List.mem_cons.1 hd with rfl | hd
+    · exact foldl_mx_ge_init rs d
+    · exact foldl_mx_ge_mem rs r d hd
+
+/-- the default discount aggregator (max) over non-negative per-agent discounts: the aggregated discount is zero
+exactly when EVERY agent's discount is zero ("if any single agent is alive, the discount value won't be zero") -/
+theorem maxAgg_zero_iff (ds : List Rat) (hne : ds ≠ []) (h0 : ∀ d ∈ ds, 0 ≤ d) :
+    maxAgg ds = 0 ↔ ∀ d ∈ ds, d = 0 := by
+  constructor
+  · intro hm d hd
+    have h1 := maxAgg_ge ds d hd
+    rw [hm] at h1
+    exact Rat.le_antisymm h1 (h0 d hd)
+  · intro hall
+    exact hall _ (maxAgg_mem ds hne)
+
+theorem sumAgg_nil : sumAgg [] = 0 := rfl
+
+private theorem foldl_add (l : List Rat) (r : Rat) : l.foldl (· + ·) r = r + l.foldl (· + ·) 0 := by
+  induction l generalizing r with
+  | nil => simp [Rat.add_zero]
+  | cons b l ih =>
+    simp only [List.foldl_cons]
+    rw [ih (r + b), ih (0 + b), Rat.zero_add, Rat.add_assoc]
+
+/-- the default reward aggregator is the sum of the agents' rewards -/
+theorem sumAgg_cons (r : Rat) (rs : List Rat) : sumAgg (r :: rs) = r + sumAgg rs := by
+  unfold sumAgg
+  simp only [List.foldl_cons]
+  rw [foldl_add, Rat.zero_add]
+
+end MultiToSingle
+
+/-- gym adapter over `MultiToSingleWrapper(env)` with the default aggregators: `terminated` exactly when every
+agent's native discount is zero (per-agent discounts non-negative, at least one agent) -/
+theorem Gym.multi_terminated_iff (E : Env S A O (List Rat) X) (st : Gym.St S) (s : S) (a : A)
+    (hs : st.state = some s) (hne : (E.step s a).2.discount ≠ []) (h0 : ∀ d ∈ (E.step s a).2.discount, 0 ≤ d) :
+    ∃ term trunc : Bool,
+      (Gym.run1 (MultiToSingle.env E MultiToSingle.sumAgg MultiToSingle.maxAgg) (fun d => d == 0) st (.step a)).2 =
+        .stepped (E.step s a).2.obs (MultiToSingle.sumAgg (E.step s a).2.reward) term trunc (E.step s a).2.extras ∧
+      (term = true ↔ ∀ d ∈ (E.step s a).2.discount, d = 0) ∧
+      (trunc = true ↔ (E.step s a).2.stepType = .last) := by
+  obtain ⟨term, trunc, h1, h2, h3, _, _⟩ :=
+    Gym.step_relays_rat (MultiToSingle.env E MultiToSingle.sumAgg MultiToSingle.maxAgg) st s a hs
+  refine ⟨term, trunc, h1, ?_, h3⟩
+  rw [h2]
+  exact MultiToSingle.maxAgg_zero_iff _ hne h0
+
+/-! ### JumanjiToDMEnvWrapper -/
+namespace DmEnv
+variable (E : Env S A O R X)
+
+/-- the first timestep: FIRST, no reward, no discount, the observation of `env.reset(split(key)[0])`;
+the adapter keeps `split(key)[1]` and the new environment state -/
+theorem reset_first (st : St S) :
+    (run1 E st .reset).2 =
+      .ts { stepType := .first, reward := none, discount := none, obs := (E.reset (.left st.key)).2.obs } ∧
+    (run1 E st .reset).1.key = .right st.key ∧
+    (run1 E st .reset).1.state = some (E.reset (.left st.key)).1 := by
+  simp [run1, restart]
+
+/-- a step relays step type, reward, discount and observation of the native step unchanged (LAST is LAST
+whether the episode was terminated or truncated: the native discount tells which) -/
+theorem step_relays (st : St S) (s : S) (a : A) (hs : st.state = some s) :
+    (run1 E st (.step a)).2 =
+      .ts { stepType := (E.step s a).2.stepType, reward := some (E.step s a).2.reward,
+            discount := some (E.step s a).2.discount, obs := (E.step s a).2.obs } ∧
+    (run1 E st (.step a)).1.state = some (E.step s a).1 ∧
+    (run1 E st (.step a)).1.key = st.key := by
+  simp [run1, hs]
+
+theorem step_before_reset (st : St S) (a : A) (hs : st.state = none) :
+    run1 E st (.step a) = (st, .error) := by
+  simp [run1, hs]
+
+def countResets : List (Op A) → Nat
+  | [] => 0
+  | .reset :: ops => countResets ops + 1
+  | .step _ :: ops => countResets ops
+
+theorem key_after (st : St S) (ops : List (Op A)) :
+    (runAll E st ops).key = Gym.rightN (countResets ops) st.key := by
+  induction ops generalizing st with
+  | nil => rfl
+  | cons op ops ih =>
+    cases op with
+    | reset =>
+      simp only [runAll, countResets]
+      rw [ih]
+      simp [run1, Gym.rightN]
+    | step a =>
+      simp only [runAll, countResets]
+      rw [ih]
+      simp only [run1]
+      cases st.state <;> rfl
+
+/-- the documented key schedule: the reset that follows `i` earlier resets of an adapter constructed
+with key `k` — and any steps in between — calls `env.reset(resetKey k i)` -/
+theorem key_schedule (k : Key) (ops : List (Op A)) :
+    (run1 E (runAll E (init k) ops) .reset).2 =
+      .ts (restart (E.reset (resetKey k (countResets ops))).2.obs) := by
+  have hk := key_after E (init k) ops
+  simp only [run1, resetKey]
+  rw [hk]
+  rfl
+
+/-- "re-seeding" a dm_env adapter = constructing it with the key again.  Whatever an adapter did before,
+from its next `reset` on its outputs depend only on its key -/
+theorem reseed_reproducible (st st' : St S) (hk : st.key = st'.key) (ops : List (Op A)) :
+    trace E st (.reset :: ops) = trace E st' (.reset :: ops) := by
+  have h : run1 E st .reset = run1 E st' .reset := by simp [run1, hk]
+  simp only [trace, h]
+
+theorem trace_append (st : St S) (xs ys : List (Op A)) :
+    trace E st (xs ++ ys) = trace E st xs ++ trace E (runAll E st xs) ys := by
+  induction xs generalizing st with
+  | nil => rfl
+  | cons x xs ih => simp only [List.cons_append, trace, runAll, ih]
+
+/-- what the adapter makes of a native transition -/
+def relay (p : S × TS O R X) : Out O R :=
+  .ts { stepType := p.2.stepType, reward := some p.2.reward, discount := some p.2.discount, obs := p.2.obs }
+
+theorem trace_steps (st : St S) (s : S) (hs : st.state = some s) (as : List A) :
+    trace E st (as.map .step) = (rollout E s as).map relay ∧
+    (runAll E st (as.map .step)).key = st.key := by
+  induction as generalizing st s with
+  | nil => exact ⟨rfl, rfl⟩
+  | cons a as ih =>
+    obtain ⟨h1, h2, h3⟩ := step_relays E st s a hs
+    simp only [List.map_cons, trace, runAll, rollout]
+    obtain ⟨i1, i2⟩ := ih (run1 E st (.step a)).1 (E.step s a).1 h2
+    rw [i1, i2, h3, h1]
+    exact ⟨rfl, rfl⟩
+
+/-- the calls of one episode / what the native API gives for it -/
+def episodeOps (as : List A) : List (Op A) := .reset :: as.map .step
+def episodeOut (key : Key) (as : List A) : List (Out O R) :=
+  .ts (restart (E.reset key).2.obs) :: (rollout E (E.reset key).1 as).map relay
+def nativeTrace (k : Key) : Nat → List (List A) → List (Out O R)
+  | _, [] => []
+  | i, as :: eps => episodeOut E (resetKey k i) as ++ nativeTrace k (i+1) eps
+
+theorem trace_eq_native_aux (k : Key) (eps : List (List A)) (i : Nat) (st : St S) (hk : st.key = Gym.rightN i k) :
+    trace E st (eps.flatMap episodeOps) = nativeTrace E k i eps := by
+  induction eps generalizing i st with
+  | nil => rfl
+  | cons as eps ih =>
+    simp only [List.flatMap_cons, nativeTrace]
+    rw [trace_append]
+    obtain ⟨r1, r2, r3⟩ := reset_first E st
+    have hst := trace_steps E (run1 E st .reset).1 _ r3 as
+    congr 1
+    · simp only [episodeOps, trace, episodeOut, r1, hst.1, resetKey, hk, restart]
+    · apply ih (i+1)
+      simp only [episodeOps, runAll]
+      rw [hst.2, r2, hk, Gym.rightN_succ]
+
+/-- driving an environment through the adapter for any number of episodes (each a `reset` followed by any
+steps) yields exactly the native API's outputs under the key schedule `resetKey k 0, resetKey k 1, …` -/
+theorem trace_eq_native (k : Key) (eps : List (List A)) :
+    trace E (init k) (eps.flatMap episodeOps) = nativeTrace E k 0 eps :=
+  trace_eq_native_aux E k eps 0 (init k) rfl
+
+end DmEnv
+
+theorem aggregate_only {R' : Type} (aggR aggD : R → R') (t : TS O R X) :
     (aggregate aggR aggD t).reward = aggR t.reward ∧ (aggregate aggR aggD t).discount = aggD t.discount ∧
     (aggregate aggR aggD t).stepType = t.stepType ∧ (aggregate aggR aggD t).obs = t.obs ∧
     (aggregate aggR aggD t).extras = t.extras ∧ (aggregate aggR aggD t).nextObs = t.nextObs := by
